@@ -21,6 +21,12 @@ MOL2 = {
     "planar4": ("C", [(250, 30, 0), (-120, 210, 0), (-90, -160, 0), (-40, -80, 0)]),
     "five": ("C", [(150, 20, 0), (10, 180, 0), (0, 30, 150), (-100, -130, -50), (-60, -100, -100)]),
 }
+# planar, three distinct principal moments, ONE atom on a principal axis (the apex of an isosceles triangle - water's shape):
+# the other two atoms determine every sign; the atom ORDER in the file must not matter
+MOL2_EXTRA = {
+    "apexfirst3": ("C", [(0, 0, 80), (0, 90, -40), (0, -90, -40)]),
+    "apexlast3": ("C", [(0, 90, -40), (0, -90, -40), (0, 0, 80)]),
+}
 
 
 def quat_to_matrix(q):
@@ -42,7 +48,7 @@ def run_grid(ctx, rng, spec, molname, nframes, outliers, d, use_pt=False, shift=
     from molgri.io import OneMoleculeReader
     from molgri.molecules.transitions import AssignmentTool
     b, o, t = spec
-    el, coords = MOL2[molname]
+    el, coords = (MOL2 | MOL2_EXTRA)[molname]
     p1, p2 = str(d / "m1.xyz"), str(d / f"{molname}.xyz")
     write_xyz(p1, "N", [(0, 0, 0)])
     write_xyz(p2, el, coords)
@@ -129,6 +135,9 @@ def run(ctx: Ctx):
     # a planar second molecule far from the origin (any real MD box): float32 coordinates carry ~1e-6 A of noise there, which
     # must not decide the handedness of the principal-axis frame
     recs += run_grid(ctx, rng, ("8", "7", "[0.2, 0.35]"), "planar4", nframes, outliers=False, d=d, shift=(40.0, 40.0, 40.0))
+    # water-shaped molecules in both atom orders
+    for molname in MOL2_EXTRA:
+        recs += run_grid(ctx, rng, ("5", "7", "[0.2, 0.35]"), molname, nframes // 2, outliers=False, d=d, shift=(0.9, -0.6, 0.4))
     # the grid's own pseudotrajectory (real Pseudotrajectory class), every row
     recs += run_grid(ctx, rng, ("5", "7", "[0.2, 0.35]"), "generic4", 0, outliers=False, d=d, use_pt=True)
     if thorough:
